@@ -254,3 +254,27 @@ class CFG:
             body.add(n)
             stack.extend(self.blocks[n].preds)
         return header, body
+
+
+def acyclic_paths(cfg, start, stops, within=None, limit=2000):
+    """All simple block paths from block `start` to any block in `stops` (not passing through a stop earlier),
+    staying inside `within` (set of block ids) when given.  Inner loops are cut by the simple-path condition
+    (their body is traversed at most once).  Returns list of block-id lists (including the final stop block)."""
+    out = []
+
+    def rec(b, path, seen):
+        if len(out) > limit:
+            return
+        if b in stops and path:
+            out.append(path + [b])
+            return
+        for s in cfg.blocks[b].succs:
+            if s is None or s in seen:
+                if s is not None and s in stops:
+                    out.append(path + [b, s]) if False else None
+                continue
+            if within is not None and s not in within and s not in stops:
+                continue
+            rec(s, path + [b], seen | {s})
+    rec(start, [], {start})
+    return out
